@@ -115,7 +115,9 @@ def cases_for(tier, s):
     pool = [c["recipe"] for c in (c01.curated(tier)[::6] + c02.curated(tier)[::5] + c04.cases_for("quick", s)[::7])]
     pool += [{"b": "all_types", "cell": "triangle"}, {"b": "dispatch", "cell": "triangle", "p": {"seed": [s, 13, 1], "nint": 5, "nforms": 2}},
              {"b": "nearmiss", "cell": "triangle"}, {"b": "nearmiss", "cell": "triangle", "p": {"kind": "expr"}},
-             {"b": "rand_expr", "cell": "tetrahedron", "p": {"seed": [s, 13, 2], "nexpr": 3}}]
+             {"b": "rand_expr", "cell": "tetrahedron", "p": {"seed": [s, 13, 2], "nexpr": 3}},
+             {"b": "expr_two_meshes", "cell": "triangle", "p": {"which": 0}}, {"b": "expr_two_meshes", "cell": "tetrahedron", "p": {"which": 2}}]
+    pool = pool[-2:] + pool[:-2]
     if tier == "quick":
         pool = pool[:22]
     for i, r in enumerate(pool):
